@@ -273,3 +273,13 @@ hx_probe_write_access(int32 f, int32 tag, int32 ref)
         return FAIL;
     return Hendaccess(aid);
 }
+
+/* netCDF-layer error reporting switch (NC_VERBOSE = 2 prints the reason of a failure to stderr) */
+extern int H4_ncopts;
+int32
+hx_set_ncopts(int32 v)
+{
+    int32 old = H4_ncopts;
+    H4_ncopts = v;
+    return old;
+}
